@@ -96,6 +96,9 @@ def parts():
                   key=lambda r: json.dumps(r['cfg'], sort_keys=True) + str(r['decisions'][:80]),
                   describe=lambda r: {k: r.get(k) for k in ('cfg', 'strategy', 'verdict', 'cycles', 'blocked')}),
         __import__('harness.scen_procstack', fromlist=['part']).part(5, 40, calls_only=True),
+        # real AsyncServer / Server over thread and process servlets, incl. non-batching workers that run call() in their own
+        # thread pool (num_stream_threads): every caller gets the result of its own input
+        __import__('harness.scen_backlog', fromlist=['part']).part(12, 150),
     ]
 
 
